@@ -306,7 +306,7 @@ def scen_options(ch, params, out):
 
 def parts(tier):
     q = tier == "quick"
-    return [CH("lookup", "vflib.props.c16:scen_lookup", {"maxlen": 4 if q else 6}, shards=1, timeout=170 if q else 1500, path_timeout=60, mode="CH-P"),
+    return [CH("lookup", "vflib.props.c16:scen_lookup", {"maxlen": 4 if q else 6}, shards=1, timeout=170 if q else 900, path_timeout=60, mode="CH-P"),
             CH("assembly", "vflib.props.c16:scen_assembly", {}, shards=9, timeout=170 if q else 900, path_timeout=30),
             CH("options", "vflib.props.c16:scen_options", {}, shards=13, timeout=170 if q else 900, path_timeout=30)]
 
